@@ -79,7 +79,7 @@ fn plan_for(property: &str, tier: &str, seed: u64, workers: usize) -> Result<Pla
         "C06" => Ok(Plan {
             level: "exploration",
             batches: vec![native("compare", runs(1_500_000, 150_000_000))],
-            rule: "per run one reader kind (26 reader entry points incl. read_limited / read_without_version / skip_* variants), one generated header stream plus 10 damaged copies (byte flips biased to the first 20 bytes, truncation at a seeded point), each decoded through the reader under whole / 1-byte / seeded short+EINTR transfers and compared with the slice decoder on the slice that holds the announced packet. distinct_nontrivial counts distinct (kind, stream digest, limit, ip number, transfer pattern) tuples where the medium was damaged or the header has a length-dependent second part (stream > 20 bytes)",
+            rule: "per run one reader kind (26 reader entry points incl. read_limited / read_without_version / skip_* variants), one generated header stream plus 10 damaged copies (byte flips biased to the first 20 bytes, truncation at a seeded point), each decoded through the reader under whole / 1-byte / seeded short+EINTR / fixed-block transfers and compared with the slice decoder on the slice that holds the announced packet. distinct_nontrivial counts distinct (kind, stream digest, limit, ip number, transfer pattern) tuples where the medium was damaged or the header has a length-dependent second part (stream > 20 bytes)",
             assumptions: vec![
                 "only the io::Read == from_slice clause of C06 is decided; the slice-vs-slice entry point equivalences are pure input relations (not applicable to this technique)",
                 "numeric LenError fields are recorded (len_error_fields_equal) but not asserted - they are C07's subject",
@@ -102,7 +102,7 @@ fn plan_for(property: &str, tier: &str, seed: u64, workers: usize) -> Result<Pla
             Ok(Plan {
                 level: "exploration",
                 batches,
-                rule: "per run one reader kind, one generated stream plus 6 damaged copies, each read under a clean plan, a short-read+EINTR plan and a hard fault / end-of-stream at each of the first 8 calls; the complete result (value or error) is rendered with Debug so every exposed byte is touched. Native configuration: build with debug assertions, overflow checks and core's unsafe-precondition checks (abort on violation). Miri configuration: same cases with a reader that inspects its destination buffer before filling it. distinct_nontrivial counts distinct (kind, stream digest, fault position, transfer pattern) tuples with a damaged medium or an injected reader fault",
+                rule: "per run one reader kind, one generated stream plus 6 damaged copies, each read under a clean plan, a short-read+EINTR plan and a hard fault / end-of-stream at each of the first 8 calls; the complete result (value or error) is rendered with Debug so every exposed byte is touched. Native configuration: build with debug assertions, overflow checks and core's unsafe-precondition checks (abort on violation). AddressSanitizer configuration: other runs of the same workload in an ASan build. Miri configuration: same kind of cases (fewer; typed ICMP messages and ARP size extremes walked through deterministically) with a reader that inspects its destination buffer before filling it. All configurations include a reader that at one call claims to have read more bytes than fit (a panic is accepted, undefined behaviour is not). distinct_nontrivial counts distinct (kind, stream digest, fault position, transfer pattern) tuples with a damaged medium or an injected reader fault",
                 assumptions: vec![
                     "only the reader-based decoders of C01 are decided; slice-based decoders, accessors and placement independence are pure input properties (not applicable to this technique)",
                     "the native configuration detects only UB that trips a debug assertion, an overflow check or an unsafe-precondition check; Miri detects uninitialised reads, out-of-bounds and provenance errors on the (fewer) cases it runs",
@@ -132,7 +132,7 @@ fn plan_for(property: &str, tier: &str, seed: u64, workers: usize) -> Result<Pla
             Ok(Plan {
                 level: "exploration",
                 batches,
-                rule: "one run = one simulated capture session: 1-6 sender hosts emit datagrams cut into fragments, a simulated network drops / duplicates / delays (reorders) / corrupts / truncates / pads frames and retransmits datagrams with different cuts, Byzantine senders emit conflicting fragments, the capture node slices every frame with the real slicer and feeds the real IpDefragPool in lock-step with a reference reassembler, with evictions, buffer returns (own and foreign), restarts, checkpoint/rollback and allocation failures; configurations: clean (reordering, duplication, interleaving only - strict oracle), faulty (all fault kinds), bulk (multi-victim retain), buf (IpDefragBuf driven directly). distinct_nontrivial counts distinct run histories (digest of the complete receiver-side event log) in which at least two streams were interleaved or a fault fired while a stream was in flight",
+                rule: "one run = one simulated capture session: 1-6 sender hosts emit datagrams cut into fragments, a simulated network drops / duplicates / delays (reorders) / corrupts / truncates / pads frames and retransmits datagrams with different cuts, Byzantine senders emit conflicting fragments, the capture node slices every frame with the real slicer and feeds the real IpDefragPool in lock-step with a reference reassembler, with evictions, buffer returns (own and foreign), restarts, checkpoint/rollback, allocation failures, clock jumps, capture-node stalls and network partitions; entry points from_ethernet / from_linux_sll / from_ether_type / from_ip with up to three VLAN tags and MACsec; configurations: clean (reordering, duplication, interleaving only), faulty (all fault kinds), bulk (multi-victim retain), buf (IpDefragBuf driven directly), a 'confetti' variant (one datagram in thousands of tiny fragments) in 1 of 120 runs, and a second pass of faulty and buf in an AddressSanitizer build (other seeds). distinct_nontrivial counts distinct run histories (digest of the complete receiver-side event log) in which at least two streams were interleaved or a fault fired while a stream was in flight",
                 assumptions: vec![
                     "the reference reassembler (bitmap coverage, no range merging) is the specification of 'covered' and 'complete'",
                     "fragmentable parts that start with an extension header (IPv4 protocol 51, IPv6 next header 0/43/44/51/60) are not generated (DESIGN 6.4)",
@@ -382,7 +382,7 @@ pub fn run_main(property: &str, tier: &str) -> i32 {
             "seeds",
             J::obj()
                 .set("verif_seed", J::s(&seed.to_string()))
-                .set("derivation", J::s("run i uses mix(VERIF_SEED, engine, property, i); run indices 0..runs per configuration"))
+                .set("derivation", J::s("run i uses mix(VERIF_SEED, engine, property, i); run indices 0..runs per configuration; AddressSanitizer batches use mix(VERIF_SEED, 0xa5a) in place of VERIF_SEED"))
                 .set("count", J::u(total_runs)),
         )
         .set("simulated_time_s", J::Num(stats.sim_time_us as f64 / 1e6))
